@@ -1,12 +1,20 @@
 import LokiModel.Sexp
 import LokiModel.C06.Codec
+import LokiModel.C06.CodecC
 import LokiModel.C06.Good
+import LokiModel.C06.GoodC
 open LokiModel.C06 LokiModel.Expr Sexp
 
 def step : Sexp → Option Sexp
   | list (atom "printF" :: e :: p :: _) => do
       let e ← decE e; let p ← p.toNat?
       pure (list (atom "ok" :: list [atom "good", ofBool (Good fcfg e)] :: (printF fcfg e p).map encTok))
+  | list (atom "printC" :: e :: p :: _) => do
+      let e ← decE e; let p ← p.toNat?
+      pure (list (atom "ok" :: list [atom "good", ofBool (GoodC ccfg e)] :: (printC ccfg e p).map encCTok))
+  | list (atom "gccC" :: e :: p :: _) => do
+      let e ← decE e; let p ← p.toNat?
+      pure (list (atom "ok" :: list [atom "good", ofBool (GoodC ccfg e)] :: (printC ccfg e p).map encCTok))
   | list [atom "den", e] => do
       let e ← decE e
       pure (list [atom "ok", encS (den e)])
